@@ -142,7 +142,8 @@ ENUM_CFGS = (
 def fixed_cases():
     """One fixed case per (layout, granularity): inside it *every* placement of one worker exception is tried."""
     return ([{"mode": 63, "enum_confirm": 1, "enum_cfg": c, "enum_gran": g} for c in range(len(ENUM_CFGS)) for g in (0, 1)] +
-            [{"mode": 62, "enum_confirm": 1, "order_cfg": c} for c in range(len(ORDER_CFGS))])
+            [{"mode": 62, "enum_confirm": 1, "order_cfg": c} for c in range(len(ORDER_CFGS))] +
+            [{"mode": 61, "enum_confirm": 1, "layout_cfg": c} for c in range(len(LAYOUT_CFGS))])
 
 
 def _enum_case(ch, out):
@@ -261,13 +262,60 @@ def _order_case(ch, out):
     return out
 
 
+# ---- stripe-count robustness on fixed images -----------------------------------------------------------------------
+LAYOUT_CFGS = (
+    dict(rows=96, cols=32, grid=(8, 8), box=(32, 32), seed=3, kind="noise", offset_pow=10),
+    dict(rows=120, cols=40, grid=(4, 4), box=(24, 24), seed=5, kind="gradient", offset_pow=13),
+    dict(rows=80, cols=48, grid=(8, 4), box=(40, 20), seed=9, kind="noise", offset_pow=7),
+)
+
+
+def _layout_case(ch, out):
+    """For a fixed noise image with a large DC offset: 1, 2, 3, 4, 5 and 6 stripes (6 workers).  Every layout must
+    terminate with complete maps, and the maps of any two layouts may differ by at most SIGMA_FRACTION x the noise."""
+    c = LAYOUT_CFGS[ch.draw("layout_cfg", len(LAYOUT_CFGS))]
+    cfg = dict(rows=c["rows"], cols=c["cols"], grid=c["grid"], box=c["box"], cores=6, nslice=1, mask=True,
+               naxis=2, nplanes=1, cube_index=0, bitpix=-32, bscale=None)
+    content = dict(seed=c["seed"], kind=c["kind"], offset_pow=c["offset_pow"], offset_neg=False, sigma_pow=0,
+                   blank="none", blank_inf=False, blank_seed=0)
+    img = bw.make_image(cfg, content)
+    fn = bw.write_image(bw.fresh_path("c07l"), cfg, img)
+    out.sample = {"layout_comparison": _cfg_str(cfg), "layouts": []}
+    try:
+        maps = []
+        for ns in (1, 2, 3, 4, 5, 6):
+            cfg_n = dict(cfg, nslice=ns)
+            r = _run(fn, cfg_n, bw.canonical_sched(0, 0), ch, fill="payload")
+            _count(out, r)
+            if not _basic(out, r, cfg_n, "fixed image, %d stripes requested" % ns):
+                return out
+            maps.append((r.layout, r.bkg.astype(np.float64), r.rms.astype(np.float64)))
+            out.sample["layouts"].append(str(r.layout))
+        for i in range(len(maps)):
+            for j in range(i + 1, len(maps)):
+                if maps[i][0] == maps[j][0]:
+                    continue
+                out.stats["oracle:stripe_count_robust"] += 1
+                db = float(np.nanmax(np.abs(maps[i][1] - maps[j][1])))
+                dr = float(np.nanmax(np.abs(maps[i][2] - maps[j][2])))
+                out.maximum("layout_delta_in_sigma(threshold %.2f)" % SIGMA_FRACTION, max(db, dr))
+                if not (db <= SIGMA_FRACTION and dr <= SIGMA_FRACTION):
+                    out.violation("stripe-sensitivity", "fixed image %s (noise rms 1, offset 2^%d): layouts %s and %s give maps "
+                                  "that differ by %.3g (bkg) and %.3g (rms) x the local noise"
+                                  % (_cfg_str(cfg), c["offset_pow"], maps[i][0], maps[j][0], db, dr), sig=None, cfg=_cfg_str(cfg))
+                    return out
+    finally:
+        bw.remove_quietly(fn)
+    return out
+
+
 def case(ch):
     out = Outcome()
     # the enumerations are the *fixed* cases of every batch (forced draws); a random case runs one only with
     # probability 1/32000, otherwise it is an ordinary random case
     mode = ch.draw("mode", 64)
-    if mode >= 62 and ch.draw("enum_confirm", 1000) == 1:
-        return _enum_case(ch, out) if mode == 63 else _order_case(ch, out)
+    if mode >= 61 and ch.draw("enum_confirm", 1000) == 1:
+        return _enum_case(ch, out) if mode == 63 else _order_case(ch, out) if mode == 62 else _layout_case(ch, out)
     cfg = bw.gen_config(ch)
     content = bw.gen_content(ch, cfg)
     hot, line = bw.gen_yield_settings(ch)
